@@ -53,6 +53,35 @@ pub fn sssp(adj: &[Vec<(usize, f64)>], src: usize) -> Vec<f64> {
     d
 }
 
+/// single-source distances with a binary heap (non-negative weights): O(m log n), for graphs of tens of thousands of nodes
+pub fn sssp_heap(adj: &[Vec<(usize, f64)>], src: usize) -> Vec<f64> {
+    use std::cmp::Reverse;
+    use std::collections::BinaryHeap;
+    let n = adj.len();
+    let mut d = vec![INF; n];
+    d[src] = 0.0;
+    // non-negative finite f64 order like their bit patterns
+    let mut h: BinaryHeap<Reverse<(u64, usize)>> = BinaryHeap::new();
+    h.push(Reverse((0f64.to_bits(), src)));
+    while let Some(Reverse((db, u))) = h.pop() {
+        let du = f64::from_bits(db);
+        if du > d[u] {
+            continue;
+        }
+        for &(v, w) in &adj[u] {
+            if v == u {
+                continue;
+            }
+            let nd = du + w;
+            if nd < d[v] {
+                d[v] = nd;
+                h.push(Reverse((nd.to_bits(), v)));
+            }
+        }
+    }
+    d
+}
+
 impl DistOracle {
     pub fn new(s: &Snap, hop: bool) -> DistOracle {
         let n = s.n();
